@@ -263,7 +263,11 @@ Proof.
   intros Ha Hn. apply X1; [exact Ha | rewrite Hi; exact Hn].
 Qed.
 
+End Steps.
+
 (* ---------- path ---------- *)
+Section PathSteps.
+Variable dbg : bool.
 (* the exclusions, on the record before and after: F-C02-8 (no marker, result starts with "//"),
    F-C03-5 (marker, result does not start with "//"), F-C06-6 (opaque path that stops being opaque) *)
 Definition path_gate (u u' : url) : Prop :=
@@ -325,4 +329,4 @@ Proof.
     exact (proj1 (marker_result dbg u P W Ha Em (proj1 HP)) G).
 Qed.
 
-End Steps.
+End PathSteps.
